@@ -678,6 +678,8 @@ package decoder
 //@   ensures wfStream(s) && s.cursor == old(s.cursor) && (ok ==> s.cursor <= s.length)
 // the bytes already consumed are never changed by a refill
 //@   ensures forall k :: 0 <= k && k < s.cursor ==> s.buf[k] == old(s.buf[k])
+// "no more input" is reported only at end of input or together with the reader's error, which is kept for the caller
+//@   ensures !ok ==> old(s.allRead) || s.readErr != nil
 //@   assigns all
 
 // ---------------------------------------------------------------- stream literals (C09, C06)
